@@ -1363,6 +1363,10 @@ class ClientRequest(ClientRequestBase):
         self._update_body(body)
 
     def _update_expect_continue(self, expect: bool = False) -> None:
+        if self.version == HttpVersion10:
+            # HTTP/1.0 has no interim responses: a server ignores the expectation
+            # (RFC 9110 10.1.1) and "100 Continue" would never arrive.
+            return
         if expect:
             self.headers[hdrs.EXPECT] = "100-continue"
         elif (
